@@ -119,6 +119,7 @@ type AEvent struct {
 	Index  int                  // position of this event in the trace of its path
 	Stop   bool                 // set by OnCall: end this path here (the outcome is marked Stopped)
 	Ret    AVal                 // what the call was replaced by
+	Nils   map[string]bool      // named values the path has compared with nil so far: true = found nil (read only)
 }
 
 type AMem struct {
@@ -2625,7 +2626,7 @@ func (ex *Exec) call(s *astate, fr *aframe, x *ssa.Call) (bool, error) {
 		ex.Observe(&AEvent{Callee: name, Fn: callee, Args: args, Mem: s.mem, Site: x, Index: len(s.trace)})
 	}
 	if ex.OnCall != nil {
-		ev := &AEvent{Callee: name, Fn: callee, Args: args, Mem: s.mem.clone(), Site: x, Conds: append([]string(nil), s.conds...), Facts: map[string][2]uint64{}, Index: len(s.trace)}
+		ev := &AEvent{Callee: name, Fn: callee, Args: args, Mem: s.mem.clone(), Site: x, Conds: append([]string(nil), s.conds...), Facts: map[string][2]uint64{}, Index: len(s.trace), Nils: s.nils}
 		for k, v := range s.facts {
 			ev.Facts[k] = v
 		}
